@@ -28,7 +28,7 @@ import (
 
 func init() {
 	Register(&Family{Name: "C17.collect", Props: []string{"C17"}, Weight: 2, Gen: genC17Collect, Run: runC17Collect, Valid: c17Valid})
-	Register(&Family{Name: "C17.tochannel", Props: []string{"C17"}, Weight: 4, MaxSteps: 60000, Gen: genC17ToChannel, Run: runC17ToChannel, Valid: c17Valid})
+	Register(&Family{Name: "C17.tochannel", Props: []string{"C17", "C08"}, Weight: 4, MaxSteps: 60000, Gen: genC17ToChannel, Run: runC17ToChannel, Valid: c17Valid})
 	Register(&Family{Name: "C17.fromchannel", Props: []string{"C17"}, Weight: 3, MaxSteps: 60000, Gen: genC17FromChannel, Run: runC17FromChannel, Valid: c17Valid})
 	Register(&Family{Name: "C17.materialize", Props: []string{"C17"}, Weight: 2, Gen: genC17Materialize, Run: runC17Materialize, Valid: c17Valid})
 }
@@ -526,7 +526,7 @@ func runC17ToChannel(e *Env) {
 	o := ro.ToChannel[int](size)(src.Obs())
 
 	var got []ro.Notification[int]
-	var closedSeen, consStopped bool
+	var closedSeen, consStopped, receiving bool
 	closedStep := 0
 	var closedT time.Duration
 	consumer := func(ch <-chan ro.Notification[int]) {
@@ -536,7 +536,9 @@ func runC17ToChannel(e *Env) {
 				e.K.Log("consumer stops reading")
 				return
 			}
+			receiving = true
 			n, ok := simrt.Recv2(ch)
+			receiving = false
 			if !ok {
 				closedSeen, closedStep, closedT = true, e.Step(), e.K.Now()
 				e.K.Log("consumer sees the channel closed")
@@ -573,6 +575,22 @@ func runC17ToChannel(e *Env) {
 		}
 	}
 	defer func() { ro.OnDroppedNotification = prevDropped }()
+	// C08: the channel is the only queue: the producer is never ahead of the consumer by more than its capacity
+	returned := 0
+	unsubStarted := false
+	src.AfterCall = func(c *ProdCall) {
+		if c.Panic != nil || unsubStarted {
+			return // after Unsubscribe a blocked call returns without having queued anything
+		}
+		returned++
+		allowed := size
+		if receiving {
+			allowed++ // the consumer is inside a receive: it may already hold one value it has not recorded yet
+		}
+		if ahead := returned - len(got); ahead > allowed {
+			e.Violate("C08", "tochannel-capacity-exceeded", fmt.Sprintf("ToChannel(%d): %d producer calls have returned while the consumer has recorded %d notifications (inside a receive: %v): %d waiting, more than the configured capacity allows", size, returned, len(got), receiving, ahead))
+		}
+	}
 	h := c17Subscribe(e, o, outer.Observer())
 
 	unsubInvokeStep, unsubReturned, unsubSkipped := 0, false, false
@@ -616,6 +634,7 @@ func runC17ToChannel(e *Env) {
 				return
 			}
 			unsubInvokeStep, unsubInvokeT = e.Step(), e.K.Now()
+			unsubStarted = true
 			e.K.Log("Unsubscribe called")
 			func() {
 				defer func() {
